@@ -105,7 +105,12 @@ func (propC15) Gen(seed uint64, ex map[string]bool) interface{} {
 				sc.Ops = append(sc.Ops, c15Op{K: "register", Name: name, Via: pick(r, []int{0, 0, 1, 2, 3})})
 			}
 		case c < 15:
-			sc.Ops = append(sc.Ops, c15Op{K: "lset", L: l, Name: name})
+			if r.P(8) {
+				// a timestamp-aware loader may report ANY int64: sign bit, zero, extremes (only the in-memory loader can)
+				sc.Ops = append(sc.Ops, c15Op{K: "lsetx", L: l, Name: name, D: pick(r, []int64{-1 << 63, -1 << 62, -1, 0, 1, 1 << 62, 1<<63 - 1, -2, 1 << 33})})
+			} else {
+				sc.Ops = append(sc.Ops, c15Op{K: "lset", L: l, Name: name})
+			}
 		case c < 16:
 			sc.Ops = append(sc.Ops, c15Op{K: "touch", L: l, Name: name})
 		case c < 17:
@@ -453,6 +458,16 @@ func (propC15) Run(scI interface{}) *Outcome {
 		case "lset":
 			nextVer++
 			setFile(loaders[op.L], op.Name, nextVer, nextVer%3 == 0)
+		case "lsetx":
+			nextVer++
+			if l := loaders[op.L]; l.kind == "simts" {
+				l.sim.src[op.Name] = c15Src(op.Name, nextVer)
+				l.sim.mtime[op.Name] = op.D
+				l.files[op.Name] = c15File{ver: nextVer, mtime: op.D}
+				o.Probes["extreme_timestamps"]++
+			} else {
+				setFile(l, op.Name, nextVer, false)
+			}
 		case "touch":
 			l := loaders[op.L]
 			if f, ok := l.files[op.Name]; ok && l.ts {
@@ -889,6 +904,8 @@ func opsText(ops []c15Op) string {
 			s += fmt.Sprintf("clock%+ds ", op.D)
 		case "lset", "touch", "ldel":
 			s += fmt.Sprintf("%s(L%d,%s) ", op.K, op.L, op.Name)
+		case "lsetx":
+			s += fmt.Sprintf("lset(L%d,%s,mtime=%d) ", op.L, op.Name, op.D)
 		case "addloader":
 			s += fmt.Sprintf("addloader(%s) ", c15Kinds[op.Via%len(c15Kinds)])
 		case "chainadd":
@@ -929,7 +946,7 @@ func (propC15) Shrink(scI interface{}) []interface{} {
 			for j := range c.Ops {
 				if c.Ops[j].L > i {
 					c.Ops[j].L--
-				} else if c.Ops[j].L == i && (c.Ops[j].K == "lset" || c.Ops[j].K == "touch" || c.Ops[j].K == "ldel" || c.Ops[j].K == "fault") {
+				} else if c.Ops[j].L == i && (c.Ops[j].K == "lset" || c.Ops[j].K == "lsetx" || c.Ops[j].K == "touch" || c.Ops[j].K == "ldel" || c.Ops[j].K == "fault") {
 					c.Ops[j].K = "nop"
 				}
 			}
